@@ -28,7 +28,7 @@ import (
 
 func init() { props["C05"] = runC05 }
 
-var c05Trajs = [][]int{{0, -3, 1}, {1, 1, 2}, {2, 7, 7}, {7, 1 << 30, 3}, {1 << 30, 0, 5}, {3, 3, 3}, {5, math.MaxInt32, 2}}
+var c05Trajs = [][]int{{0, -3, 1}, {1, 1, 2}, {2, 7, 7}, {7, 1 << 30, 3}, {1 << 30, 0, 5}, {3, 3, 3}, {5, math.MaxInt32, 2}, {9, 9, 4}}
 
 func c05Check(kind string, strat core.Strategy, reg *RecRegistry, est int, when string) (sig, msg string) {
 	want := max1(est)
@@ -266,13 +266,16 @@ func c05Constructors(c *Ctx) {
 	}
 	st := &mc.BFSStats{Model: name, Params: params, SigCounts: map[string]int{}, Exhaustive: true, Fixpoint: true, Depth: 1, MaxDepth: 1}
 	for _, kind := range []string{"simple", "precise", "lookup", "predicate"} {
-		for _, ctor := range []string{"NewDefaultLimiter", "NewDefaultLimiterWithDefaults"} {
+		for _, ctor := range []string{"NewDefaultLimiter", "NewDefaultLimiter(estimate equals the strategy's own limit)", "NewDefaultLimiterWithDefaults"} {
 			reg := NewRecRegistry()
 			strat := newStrategy(kind, 9, reg)
 			var l *limiter.DefaultLimiter
 			var err error
 			if ctor == "NewDefaultLimiter" {
 				l, err = limiter.NewDefaultLimiter(limit.NewFixedLimit("f", 4, nil), 1e6, 1e6, 1, 10, strat, limit.NoopLimitLogger{}, reg)
+			} else if strings.HasPrefix(ctor, "NewDefaultLimiter(") {
+				// the strategy was built with 9 and the algorithm says 9: nothing "changes", yet the shares must be those of 9
+				l, err = limiter.NewDefaultLimiter(limit.NewFixedLimit("f", 9, nil), 1e6, 1e6, 1, 10, strat, limit.NoopLimitLogger{}, reg)
 			} else {
 				l, err = limiter.NewDefaultLimiterWithDefaults("d", strat, limit.NoopLimitLogger{}, reg)
 			}
